@@ -520,6 +520,8 @@ def run(ctx):
     check_std_properties(ctx, db)
     check_ctrapezoid(ctx, db)
     check_modal_repetition(ctx, db)
+    from . import C02   # UUUU = 15 is the standard's escape for an explicit value count: writer and reader agree on it for counts 0..40
+    C02.check_property(ctx, db)
 
 
 MANIFEST = dict(
